@@ -144,16 +144,22 @@ func c19Run(c *fw.Ctx) {
 	revokes := []struct {
 		name string
 		a    harness.AuthAnswer
-	}{{"ok", ans(200, "{}")}, {"bad-request", ans(400, `{"error":"invalid_request"}`)}, {"server-error", ans(500, "boom")}, {"unavailable", ans(503, "unavailable")}, {"rate-limited", ans(429, "slow")}, {"reset", harness.AuthAnswer{Reset: true}}}
+	}{{"ok", ans(200, "{}")}, {"bad-request", ans(400, `{"error":"invalid_request"}`)}, {"server-error", ans(500, "boom")}, {"unavailable", ans(503, "unavailable")}, {"rate-limited", ans(429, "slow")}, {"reset", harness.AuthAnswer{Reset: true}},
+		{"unauthorized", ans(401, `{"error":"invalid_client"}`)}, {"forbidden", ans(403, "forbidden")}, {"not-found", ans(404, "not found")}}
 	posts := []string{"with-session-cookie", "no-cookie", "forged-cookie"}
 	sigs := []string{"fresh", "replayed-after-1s", "replayed-after-301s", "tampered-sig", "tampered-redirect", "out-of-domain-redirect"}
 	reuses := []int64{10, 70}
+	visits := []struct {
+		name string
+		h    http.Header
+	}{{"plain", nil}, {"x-forwarded-host", http.Header{"X-Forwarded-Host": {"evil.test"}}}, {"x-forwarded-host-sibling", http.Header{"X-Forwarded-Host": {"b.sso.test"}}}, {"x-forwarded-proto-https", http.Header{"X-Forwarded-Proto": {"https"}}}}
 
 	drive(c, "history", -1, func(x *explore.Exec, owned bool) {
 		rv := revokes[x.Choose("revoke-outcome", len(revokes))]
 		post := posts[x.Choose("confirm-with", len(posts))]
 		sigv := sigs[x.Choose("signed-url", len(sigs))]
 		reuse := reuses[x.Choose("reuse-old-proxy-cookie-after", len(reuses))]
+		visit := visits[x.Choose("sign-out-request-headers", len(visits))]
 		setNow(0)
 		P, A, err := w.login(func() harness.AuthAnswer { return rv.a })
 		if err != nil {
@@ -165,7 +171,11 @@ func c19Run(c *fw.Ctx) {
 
 		// 1. sign out at the proxy
 		setNow(5)
-		s1 := w.proxy.Do(harness.NewRequest("GET", "/oauth2/sign_out", hostA, http.Header{"Cookie": {harness.CookieName + "=" + P}}, nil))
+		h1 := http.Header{"Cookie": {harness.CookieName + "=" + P}}
+		for k, v := range visit.h {
+			h1[k] = v
+		}
+		s1 := w.proxy.Do(harness.NewRequest("GET", "/oauth2/sign_out", hostA, h1, nil))
 		trace = append(trace, fmt.Sprintf("proxy /oauth2/sign_out -> %d %s", s1.Status, truncate(s1.Location, 120)))
 		if ck := s1.Cookie(harness.CookieName); ck == nil || ck.Value != "" {
 			viol("proxy-sign-out-keeps-cookie", "the proxy's sign-out response does not clear the session cookie")
@@ -269,11 +279,11 @@ func c19Run(c *fw.Ctx) {
 		if !owned {
 			return
 		}
-		d := map[string]interface{}{"revoke_outcome": rv.name, "confirm_with": post, "signed_url": sigv, "reuse_after_s": reuse, "trace": trace}
+		d := map[string]interface{}{"sign_out_request": visit.name, "revoke_outcome": rv.name, "confirm_with": post, "signed_url": sigv, "reuse_after_s": reuse, "trace": trace}
 		for _, v := range viols {
 			c.Res.Violate(fw.Violation{Property: "C19", Key: "C19/" + v[0], What: v[1], Scenario: "history", Choices: x.Choices(), Detail: d})
 		}
-		c.Res.Outcome(fmt.Sprintf("%s|%s|%s|%d|%d|%v|%v|%v", rv.name, post, sigv, reuse, s3.Status, cleared, revokeOK, s4.Served()))
+		c.Res.Outcome(fmt.Sprintf("%s|%s|%s|%s|%d|%d|%v|%v|%v", visit.name, rv.name, post, sigv, reuse, s3.Status, cleared, revokeOK, s4.Served()))
 		c.Res.States++
 		c.Res.Transitions += 12
 		c.Res.Validated++
@@ -290,7 +300,7 @@ func init() {
 	fw.Register(&fw.Check{
 		ID:    "C19",
 		Level: "model_checking",
-		Rule: "every history of the family: full browser login through the REAL proxy -> REAL authenticator (back channel over loopback) -> scripted stateful IdP (9 requests), sign-out at the proxy, GET of the signed authenticator URL, POST confirmation with {session cookie, no cookie, forged cookie} x signed URL {fresh, replayed after 1 s, replayed after 301 s, tampered signature, tampered return address, re-signed out-of-domain return address} x IdP revoke outcome {200, 400, 500, 503, 429, connection reset}, then reuse of the saved proxy cookie after {10 s, validity TTL + 10 s}; " +
+		Rule: "every history of the family: full browser login through the REAL proxy -> REAL authenticator (back channel over loopback) -> scripted stateful IdP (9 requests), sign-out at the proxy (plain, or carrying X-Forwarded-Host naming a foreign / sibling host, or X-Forwarded-Proto), GET of the signed authenticator URL, POST confirmation with {session cookie, no cookie, forged cookie} x signed URL {fresh, replayed after 1 s, replayed after 301 s, tampered signature, tampered return address, re-signed out-of-domain return address} x IdP revoke outcome {200, 400, 401, 403, 404, 429, 500, 503, connection reset}, then reuse of the saved proxy cookie after {10 s, validity TTL + 10 s}; " +
 			"oracle = combined-state model: proxy clears its cookie and sends the browser to the authenticator with a return address on the same host that the authenticator's own checks accept; the authenticator clears its cookie and returns the browser only after the IdP accepted the revocation, otherwise >= 500 page and cookie kept; nothing happens for an invalid signed URL; after a successful revoke the old proxy cookie is refused at the first request whose revalidation is due; " +
 			"states = histories executed (each on the real code, so also traces_validated_against_impl), transitions = requests; distinct_nontrivial = distinct (revoke outcome, confirmation kind, URL kind, reuse gap, status, cleared, revoked, served)",
 		Assumptions:    []string{"Okta flavour; the IdP is scripted but stateful (a revoked token is reported inactive afterwards)", "virtual clock shared by both services"},
